@@ -11,8 +11,8 @@ LEVEL = 'exploration'
 def run(ck, replay=None):
     quick = ck.tier == 'quick'
     ck.cov['rule'] = ('TLC enumerates command lines over an abstract syntax (segments = safe/unsafe command word, with or without a blank after '
-                      'it, one argument form out of: none, plain, quoted, escaped, { block }, ${sub-shell}, @{sub-shell}, $var, `> f`, `>> f`, '
-                      '`|> f`; or an assignment `v = 1`; joined by | -> ; && || => ? newline; the last segment is the safe command being '
+                      'it, one argument form out of: none, plain, quoted, escaped, { block }, {block} without blanks, ${sub-shell}, @{sub-shell}, sub-shells inside quotes, $var, `> f`, `>> f`, '
+                      '`|> f`, `x>>f` and `x|>f` without blanks; command words with an escaped character (`zz\\out`, `\\zout`); or an assignment `v = 1` / `out = 1`; joined by | -> ; && || => ? (also tight: `x? y`) newline; the last segment is the safe command being '
                       'completed), prints each line and says from the structure whether the text before the last flow token (what '
                       'dynamic.go executes) must not be run: it runs a command that is not on the safe list (also inside a block or '
                       'sub-shell), or contains an assignment, a redirection to a file or a sub-shell.  On the real code: parser.Parse(line, 0) '
